@@ -20,7 +20,7 @@ MANIFEST = {
 }
 
 RULE = ("per case one generated XGo package (main file with 1-3 functions, 0-2 methods, optional .gox class file with 1-2 methods, top-level statements; each body 2-6 random "
-        "statements of 52 forms (88 probe kinds: the first call of every statement plus calls in every expression position written on its first line, incl. for-in/comprehension filters, init statements, tags, case lists, select operands, defer/go arguments, lambda bodies, literal elements, multi-value returns) nested to depth 2, with comments / blank lines / block comments between statements), compiled with file-line ON, 2/3 with parser.ParseComments "
+        "statements of 52 forms (88 probe kinds: the first call of every statement plus calls in every expression position written on its first line, incl. for-in/comprehension filters, init statements, tags, case lists, select operands, defer/go arguments, lambda bodies, literal elements, multi-value returns) nested to depth 2, with comments / blank lines / block comments between statements), compiled with file-line ON under a random configuration (source directory vs RelativeBase: 12 relations incl. parent, sibling with common string prefix, unrelated, empty, relative dirs; optional statements-only class file, empty and comment-only files), 2/3 with parser.ParseComments "
         "(as the xgo tool) and 1/3 without (x/build); every probe is the first call of its statement; + per program 3 posfor cases (the Go file as is and 2 copies "
         "with 45% of the directives rewritten into 28 other, mostly malformed, shapes) + 5 hand-written directive corner cases; the first 6 (thorough 60) programs are built and run; "
         "non-trivial = distinct generated Go file with >= 1 directive")
